@@ -120,6 +120,7 @@ def run(ctx: core.Ctx):
                 ctx.violate(fam, key, what, rp)
     ctx.extra["ground_time_s"] = round(time.time() - t, 2)
     ctx.extra["cases"] = len(jobs)
+    tomo.prep_variants(ctx, "C12", False)
     ctx.trust("oracle tableau simulator", "M7: if U P U^dagger = sigma Z^s then Tr(rho P) = sigma sum_b (-1)^{s.b} <b|U rho U^dagger|b>",
               "Q2/Q5 (qiskit Pauli.evolve, Pauli data layout, hashing) and Q6 (little-endian count keys): assumed; the keys and signs the real code derives "
               "through them are compared with the oracle's, so a misreading surfaces as a refuted obligation")
@@ -131,6 +132,8 @@ def run(ctx: core.Ctx):
 
 
 def replay(data):
+    if "variant" in data.get("input", {}):
+        return tomo.replay_prep_variant(data["input"])
     inp = data["input"]
     bad = [r for r in job(tuple(inp["job"])) if r[1] is False]
     for r in bad:
